@@ -162,15 +162,10 @@ theorem highlight_geo (hrc : ComposeGeoSpec env.recompose) {c : Ctx} (h : GeoInv
   unfold highlight
   split
   · exact h
-  · rename_i g hg
-    split
-    · exact h
-    · generalize (if g.prepare (i + 1) > 0 then min (g.prepare (i + 1) - 1) i else 0) = newIndex
-      dsimp only
-      split
-      · exact h
-      · refine update_geo hrc (GeoInv.toGeoPre (modLastSeg_same h ?_))
-        exact fun _ => ⟨rfl, rfl, rfl⟩
+  · dsimp only
+    (repeat' split) <;> first
+      | exact h
+      | (refine update_geo hrc (GeoInv.toGeoPre (modLastSeg_same h ?_)); exact fun _ => ⟨rfl, rfl, rfl⟩)
 
 theorem deleteCandidate_geo {c : Ctx} (h : GeoInv c) (i : Nat) : GeoInv (deleteCandidate env c i).1 := by
   unfold deleteCandidate
@@ -194,5 +189,133 @@ theorem confirmCurrentSelection_geo (hrc : ComposeGeoSpec env.recompose) {c : Ct
     · split
       · exact h1
       · exact navSpans_geo (onSelect_geo hrc h1) _
+
+/-! ### mutators written over the reversed list -/
+
+theorem endOf_reverse (r : List Seg) : endOf r.reverse = rend r := by
+  rw [← rend_reverse, List.reverse_reverse]
+
+theorem beginEditingRev_geo : ∀ {l : List Seg}, RGeo l →
+    RGeo (beginEditingRev l) ∧ rend (beginEditingRev l) = rend l
+  | [], h => ⟨h, rfl⟩
+  | g :: rest, h => by
+    unfold beginEditingRev
+    split
+    · exact ⟨h, rfl⟩
+    · split
+      · exact ⟨⟨h.1, h.2.1.same rfl rfl rfl, h.2.2⟩, rfl⟩
+      · have ih := beginEditingRev_geo h.tail
+        exact ⟨⟨by rw [ih.2]; exact h.1, h.2.1, ih.1⟩, rfl⟩
+
+theorem beginEditing_geo {c : Ctx} (h : GeoInv c) : GeoInv c.beginEditing := by
+  have hr := beginEditingRev_geo ((geoOK_iff_rgeo _).mp h.geo)
+  refine GeoInv.mk' ?_ ?_
+  · show GeoOK (beginEditingRev c.comp.segs.reverse).reverse
+    exact (rgeo_iff_geoOK _).mp hr.1
+  · show endOf (beginEditingRev c.comp.segs.reverse).reverse ≤ c.comp.input.length
+    rw [endOf_reverse, hr.2, rend_reverse]
+    exact h.end_le
+
+theorem reopenPreviousSegment_geo (hrc : ComposeGeoSpec env.recompose) {c : Ctx} (h : GeoInv c) :
+    GeoInv (reopenPreviousSegment env c).1 := by
+  unfold reopenPreviousSegment
+  have ht : GeoOK c.comp.trim.1.segs := (trim_geo h.geo).1
+  generalize c.comp.trim = kt at ht
+  obtain ⟨k, trimmed⟩ := kt
+  dsimp only at ht ⊢
+  split
+  · have h1 : GeoPre { c with comp := k } := ⟨ht⟩
+    refine update_geo hrc ?_
+    split
+    · split
+      · exact modLastSeg_pre h1 (fun g _ hs => segGeo_reopen hs _)
+      · exact h1
+    · exact h1
+  · exact h
+
+theorem clearPreviousSegment_geo (hrc : ComposeGeoSpec env.recompose) {c : Ctx} (h : GeoInv c) :
+    GeoInv (clearPreviousSegment env c).1 := by
+  unfold clearPreviousSegment
+  split
+  · exact h
+  · split
+    · exact h
+    · exact setInput_geo hrc h.toGeoPre _
+
+theorem reopenSelRev_geo (caret : Nat) : ∀ {l r : List Seg}, RGeo l → reopenSelRev caret l = some r → RGeo r
+  | [], _, _, h => by simp [reopenSelRev] at h
+  | g :: rest, r, hl, h => by
+    unfold reopenSelRev at h
+    split at h
+    · simp at h
+    · split at h
+      · split at h
+        · simp at h
+        · simp only [Option.some.injEq] at h
+          subst h
+          have hg := segGeo_reopen hl.2.1 caret
+          exact ⟨by rw [hg.2]; exact hl.1, hg.1, hl.2.2⟩
+      · exact reopenSelRev_geo caret hl.tail h
+
+theorem reopenPreviousSelection_geo (hrc : ComposeGeoSpec env.recompose) {c : Ctx} (h : GeoInv c) :
+    GeoInv (reopenPreviousSelection env c).1 := by
+  unfold reopenPreviousSelection
+  split
+  · exact h
+  · rename_i r hr
+    refine update_geo hrc ⟨?_⟩
+    show GeoOK r.reverse
+    exact (rgeo_iff_geoOK _).mp (reopenSelRev_geo _ ((geoOK_iff_rgeo _).mp h.geo) hr)
+
+theorem dropNonConfirmedRev_geo : ∀ {l : List Seg}, RGeo l →
+    RGeo (dropNonConfirmedRev l).1 ∧ rend (dropNonConfirmedRev l).1 ≤ rend l
+  | [], h => ⟨h, Nat.le_refl _⟩
+  | g :: rest, h => by
+    unfold dropNonConfirmedRev
+    split
+    · have ih := dropNonConfirmedRev_geo h.tail
+      refine ⟨ih.1, Nat.le_trans ih.2 ?_⟩
+      show rend rest ≤ g.stop
+      rw [← h.1]; exact h.2.1.1
+    · exact ⟨h, Nat.le_refl _⟩
+
+theorem clearNonConfirmedComposition_geo {c : Ctx} (h : GeoInv c) : GeoInv (clearNonConfirmedComposition c).1 := by
+  unfold clearNonConfirmedComposition
+  have hd := dropNonConfirmedRev_geo ((geoOK_iff_rgeo _).mp h.geo)
+  generalize dropNonConfirmedRev c.comp.segs.reverse = p at hd
+  obtain ⟨r, reverted⟩ := p
+  dsimp only at hd ⊢
+  split
+  · refine modComp_forward_geo (GeoInv.mk' ?_ ?_)
+    · show GeoOK r.reverse
+      exact (rgeo_iff_geoOK _).mp hd.1
+    · show endOf r.reverse ≤ c.comp.input.length
+      rw [endOf_reverse]
+      have := h.end_le
+      rw [← rend_reverse] at this
+      omega
+  · exact h
+
+theorem refreshNonConfirmedComposition_geo (hrc : ComposeGeoSpec env.recompose) {c : Ctx} (h : GeoInv c) :
+    GeoInv (refreshNonConfirmedComposition env c).1 := by
+  unfold refreshNonConfirmedComposition
+  have h1 := clearNonConfirmedComposition_geo h
+  generalize clearNonConfirmedComposition c = p at h1
+  obtain ⟨c1, r⟩ := p
+  dsimp only at h1 ⊢
+  split
+  · exact update_geo hrc h1.toGeoPre
+  · exact h
+
+theorem setOptionRaw_geo {c : Ctx} (h : GeoInv c) (n : String) (v : Bool) : GeoInv (c.setOptionRaw n v) :=
+  h.of_comp rfl
+
+theorem setOption_geo (hrc : ComposeGeoSpec env.recompose) {c : Ctx} (h : GeoInv c) (n : String) (v : Bool) :
+    GeoInv (setOption env c n v) := by
+  unfold setOption
+  dsimp only
+  split
+  · exact refreshNonConfirmedComposition_geo hrc (setOptionRaw_geo h n v)
+  · exact setOptionRaw_geo h n v
 
 end RimeModel.Session
